@@ -76,6 +76,16 @@ CLAIMED["C13"] = sync_entry("documented rejection codes; after an accepted reque
                             "calls; callback count bounds; exactly-once execution",
                             "DESIGN.md section 5 (C13)")
 
+CLAIMED["C16"] = sync_entry("per-(unit,key) value records: a get returns a value not superseded under the "
+                            "interval order of the set calls and never another unit's or key's record; "
+                            "destructors exactly once for final non-NULL values after free/finalize",
+                            "DESIGN.md section 5 (C16)")
+CLAIMED["C17"] = sync_entry("set-of-ranks reference model: smallest unused rank on creation, requested / changed "
+                            "rank granted iff unused (else ABT_ERR_INV_XSTREAM_RANK and nothing changes), "
+                            "ABT_xstream_get_num, distinct ranks after concurrent creation, work completes "
+                            "after revive and main-scheduler replacement",
+                            "DESIGN.md section 5 (C17)")
+
 NOT_BUILT = "check not built yet in this session (see DESIGN.md section 10 for the build order)"
 
 
